@@ -161,7 +161,8 @@ def locationPath (s : St) : Option St := do
   let opPos := s.pos
   let m ← appendOpCode s.ops eOP_LOCATIONPATH
   let s1 : St := { s with ops := m }
-  let s2 ← if s1.toks.isEmpty then some s1 else step s1
+  let s2 ← if locationPathRequiresStep && (s1.toks.isEmpty || s1.cur == some .rpar) then none   -- error(ExpectedNodeTest / UnexpectedTokenFound)
+           else if s1.toks.isEmpty then some s1 else step s1
   let m ← appendOpCode s2.ops eENDOP
   let m ← updateOpCodeLength m eOP_LOCATIONPATH opPos
   some { s2 with ops := m }
